@@ -50,7 +50,7 @@ def spec (head : List String) (ups : List UpIn) : List String × Bool :=
   | ["filter"] => ((r0.filter fun (k, _) => k % 3 != 0).map showRow, true)
   | ["flatmap"] => (r0.flatMap fun (k, v) => (List.range (k % 4).toNat).map fun (j : Nat) => showRow (k, v + Int.ofNat j), true)
   | ["head", n] => ((r0.take (toNat! n)).map showRow, true)
-  | ["fold"] => ((groupSum r0).map showRow, false)
+  | ["fold"] | ["foldint"] | ["foldstr"] => ((groupSum r0).map showRow, false)
   | ["const", ns, sh] =>
     let (off, cnt) := constShard r0.length (toNat! ns) (toNat! sh)
     (((r0.drop off).take cnt).map showRow, true)
